@@ -172,3 +172,63 @@ func VH_c16_validate() {
 	}
 	vReach("end")
 }
+
+// the origin AS of a route (RFC 6811 / RFC 5065): the last AS of a path that ends in an AS_SEQUENCE;
+// none for a path that ends in an AS_SET (NotFound); the local AS for a route without AS_PATH, with an
+// empty one, or whose path consists of confederation segments only - whichever confederation
+// segment kind comes last. One covering ROA with a symbolic AS decides Valid / Invalid.
+func VH_c16_origin_as() {
+	rt := NewROATable(c14logger())
+	roaAS := vU32("roa_as")
+	vAssume(roaAS != 0)
+	rt.Add(NewROA(bgp.AFI_IP, []byte{10, 0, 0, 0}, 8, 24, roaAS, "cacheA"))
+	localAS, origin, other := vU32("local_as"), vU32("origin_as"), vU32("other_as")
+	S := func(t uint8, as ...uint32) bgp.AsPathParamInterface { return bgp.NewAs4PathParam(t, as) }
+	seq, set, cseq, cset := uint8(bgp.BGP_ASPATH_ATTR_TYPE_SEQ), uint8(bgp.BGP_ASPATH_ATTR_TYPE_SET), uint8(bgp.BGP_ASPATH_ATTR_TYPE_CONFED_SEQ), uint8(bgp.BGP_ASPATH_ATTR_TYPE_CONFED_SET)
+	var segs []bgp.AsPathParamInterface
+	eff, none := origin, false
+	shape := vChoice("aspath", 9)
+	switch shape {
+	case 0, 1: // no AS_PATH / empty AS_PATH
+		eff = localAS
+	case 2:
+		segs = []bgp.AsPathParamInterface{S(seq, other, origin)}
+	case 3:
+		segs = []bgp.AsPathParamInterface{S(seq, other), S(set, origin, other)}
+		none = true
+	case 4:
+		segs = []bgp.AsPathParamInterface{S(cseq, other)}
+		eff = localAS
+	case 5:
+		segs = []bgp.AsPathParamInterface{S(cset, other, origin)}
+		eff = localAS
+	case 6:
+		segs = []bgp.AsPathParamInterface{S(cseq, other), S(cset, origin)}
+		eff = localAS
+	case 7:
+		segs = []bgp.AsPathParamInterface{S(cseq, other), S(seq, other, origin)}
+	default:
+		segs = []bgp.AsPathParamInterface{S(cseq, other), S(set, origin)}
+		none = true
+	}
+	attrs := []bgp.PathAttributeInterface{bgp.NewPathAttributeOrigin(0)}
+	if shape != 0 {
+		attrs = append(attrs, bgp.NewPathAttributeAsPath(segs))
+	}
+	nlri, _ := bgp.NewIPAddrPrefix(netip.PrefixFrom(netip.AddrFrom4([4]byte{10, 1, 0, 0}), 16))
+	p := &Path{info: &originInfo{nlri: nlri, nlriString: "r", source: &PeerInfo{LocalAS: localAS, AS: other, Address: netip.AddrFrom4([4]byte{10, 0, 0, 1})}}, pathAttrs: attrs, family: bgp.RF_IPv4_UC}
+	v := rt.Validate(p)
+	vAssert(v != nil, "no validation result for a unicast route")
+	want := oc.RPKI_VALIDATION_RESULT_TYPE_INVALID
+	switch {
+	case none:
+		want = oc.RPKI_VALIDATION_RESULT_TYPE_NOT_FOUND
+	case eff == roaAS:
+		want = oc.RPKI_VALIDATION_RESULT_TYPE_VALID
+	}
+	vAssert(v.Status == want, "the origin AS used for validation is not the one RFC 6811 / RFC 5065 give for this AS_PATH shape")
+	if shape >= 5 && shape <= 6 {
+		vReach("confed_set_last")
+	}
+	vReach("end")
+}
